@@ -482,8 +482,19 @@ Proof.
   unfold cur at 1. simpl. destruct (N.eqb_spec k a); auto. subst. reflexivity.
 Qed.
 
+Lemma cur_cons st k v nm a : cur st ((k, v) :: nm) a = if k =? a then v else cur st nm a.
+Proof. unfold cur. simpl. destruct (k =? a); reflexivity. Qed.
+
+Lemma succ64_le n : succ64 n <= n + 1.
+Proof. unfold succ64. apply N.mod_le. unfold two64. lia. Qed.
+
+Lemma succ64_small n : n + 1 < two64 -> succ64 n = n + 1.
+Proof. intro H. unfold succ64. apply N.mod_small. exact H. Qed.
+
+(* [e] = the mathematical expected nonce (state nonce + in-sequence transactions placed so far); the
+   code's uint64 counter never exceeds it (it falls behind only by wrapping around at 2^64) *)
 Lemma walk_not_ahead st cap l : forall nm n e,
-  (forall a, cur st nm a = e a) ->
+  (forall a, cur st nm a <= e a) ->
   forall pre t post, walk st cap l nm n = pre ++ t :: post -> trid t = 0 ->
   tnonce t <= fold_left nstep pre e (tsrc t).
 Proof.
@@ -491,20 +502,24 @@ Proof.
   - destruct pre; discriminate.
   - destruct (N.eqb_spec (trid x) 0) as [Hx|Hx].
     + set (nm1 := match nm_get nm (tsrc x) with Some _ => nm | None => (tsrc x, cur st nm (tsrc x)) :: nm end) in *.
-      assert (H1 : forall a, cur st nm1 a = e a) by (intro a; unfold nm1; rewrite cur_seed; apply He).
+      assert (H1 : forall a, cur st nm1 a <= e a) by (intro a; unfold nm1; rewrite cur_seed; apply He).
       destruct (N.ltb_spec (cur st nm (tsrc x)) (tnonce x)) as [Hhi|Hlo].
       * eapply IH; eauto.
       * destruct pre as [|y pre]; simpl in Hw; inversion Hw; subst.
-        -- simpl. rewrite <- He. exact Hlo.
+        -- simpl. specialize (He (tsrc t)). lia.
         -- simpl. destruct (cap <=? n + 1); [destruct pre; discriminate|].
            eapply IH; [|eassumption|exact Ht].
-           intro a. unfold nstep. rewrite <- (He (tsrc y)). rewrite Hx. simpl.
-           rewrite (N.eqb_sym (tnonce y)).
-           destruct (N.eqb_spec (cur st nm (tsrc y)) (tnonce y)) as [Eq|Ne]; [|apply H1].
-           unfold cur at 1. simpl. rewrite (N.eqb_sym a).
-           destruct (N.eqb_spec (tsrc y) a) as [Ea|Ea].
-           ++ subst a. rewrite <- He. reflexivity.
-           ++ fold (cur st nm1 a). apply H1.
+           intro a. unfold nstep. rewrite Hx. simpl.
+           pose proof (He (tsrc y)) as Hy. pose proof (H1 a) as Ha.
+           destruct (N.eqb_spec (cur st nm (tsrc y)) (tnonce y)) as [Eq|Ne].
+           ++ rewrite cur_cons.
+              destruct (N.eqb_spec (tsrc y) a) as [Ea|Ea].
+              ** subst a. pose proof (succ64_le (cur st nm (tsrc y))) as Hs.
+                 destruct (N.eqb_spec (tnonce y) (e (tsrc y))); [rewrite N.eqb_refl|]; lia.
+              ** destruct (tnonce y =? e (tsrc y)); [|exact Ha].
+                 destruct (N.eqb_spec a (tsrc y)); [congruence | exact Ha].
+           ++ destruct (tnonce y =? e (tsrc y)); [|exact Ha].
+              destruct (N.eqb_spec a (tsrc y)); [subst a|]; lia.
     + destruct pre as [|y pre]; simpl in Hw; inversion Hw; subst; [contradiction|].
       simpl. destruct (cap <=? n + 1); [destruct pre; discriminate|].
       eapply IH; [|eassumption|exact Ht].
@@ -524,6 +539,7 @@ Proof.
   pose proof (firstn_skipn (N.to_nat cap) (walk st cap l [] 0)) as Hs. rewrite Hp in Hs.
   rewrite <- app_assoc in Hs. simpl in Hs. symmetry in Hs.
   unfold expected. eapply (walk_not_ahead st cap l [] 0 st); eauto.
+  intro a. unfold cur. simpl. lia.
 Qed.
 
 Lemma pack_sorted_ok f st cap s l :
@@ -597,16 +613,16 @@ Qed.
 Lemma subseq_length {A} (a b : list A) : subseq a b -> (length a <= length b)%nat.
 Proof. induction 1; simpl; lia. Qed.
 
-Lemma cur_cons st k v nm a : cur st ((k, v) :: nm) a = if k =? a then v else cur st nm a.
-Proof. unfold cur. simpl. destruct (k =? a); reflexivity. Qed.
-
 (* a transaction that is not ahead of the state nonce (or is not nonce-checked) is kept by the walk as
    long as the cap is not reached *)
 Lemma walk_keeps st cap t : forall l nm n,
+  (forall x, In x l -> tnonce x + 1 < two64) ->
   (forall a, st a <= cur st nm a) -> N.of_nat (length l) + n <= cap -> In t l ->
   trid t <> 0 \/ tnonce t <= st (tsrc t) -> In t (walk st cap l nm n).
 Proof.
-  induction l as [|x r IH]; intros nm n Hm Hc Hin Hok; [destruct Hin|].
+  induction l as [|x r IH]; intros nm n Hw Hm Hc Hin Hok; [destruct Hin|].
+  assert (Hwr : forall y, In y r -> tnonce y + 1 < two64) by (intros; apply Hw; right; auto).
+  pose proof (Hw x (or_introl eq_refl)) as Hwx.
   assert (Hrest : forall nm', (forall a, st a <= cur st nm' a) -> In t r ->
                   In t (if cap <=? n + 1 then [] else walk st cap r nm' (n + 1))).
   { intros nm' Hm' Hr. destruct (N.leb_spec cap (n + 1)) as [Hle|Hgt].
@@ -622,26 +638,29 @@ Proof.
     + destruct Hin as [->|Hin]; [left; reflexivity|]. right. apply Hrest; auto.
       destruct (N.eqb_spec (cur st nm (tsrc x)) (tnonce x)) as [Eq|Ne]; [|exact H1].
       intro a. rewrite cur_cons. destruct (N.eqb_spec (tsrc x) a) as [<-|Na]; [|apply H1].
-      specialize (Hm (tsrc x)). lia.
+      specialize (Hm (tsrc x)). rewrite succ64_small; lia.
   - destruct Hin as [->|Hin]; [left; reflexivity|]. right. apply Hrest; auto.
 Qed.
 
 Lemma pack_sorted_complete st cap l t :
+  (forall x, In x l -> tnonce x + 1 < two64) ->
   N.of_nat (length l) <= cap -> In t l -> trid t <> 0 \/ tnonce t <= st (tsrc t) ->
   In t (pack_sorted st cap l).
 Proof.
-  intros Hc Hin Hok. unfold pack_sorted. rewrite firstn_all2.
+  intros Hw Hc Hin Hok. unfold pack_sorted. rewrite firstn_all2.
   - apply walk_keeps; auto; [intro a; unfold cur; simpl; lia | lia].
   - pose proof (subseq_length _ _ (walk_subseq st cap l [] 0)). lia.
 Qed.
 
 Lemma pack_complete f st cap s t :
+  (forall x, In x (received s) -> tnonce x + 1 < two64) ->
   N.of_nat (length (received s)) <= cap -> In t (received s) ->
   trid t <> 0 \/ tnonce t <= st (tsrc t) -> In t (pack f st cap s).
 Proof.
-  intros Hc Hin Hok. unfold pack. destruct (received s) as [|x r] eqn:E; [destruct Hin|]. rewrite <- E in *.
+  intros Hw Hc Hin Hok. unfold pack. destruct (received s) as [|x r] eqn:E; [destruct Hin|]. rewrite <- E in *.
   destruct (p018 f).
   - apply pack_sorted_complete; auto.
+    + intros y Hy. apply Hw. eapply Permutation_in; [apply Permutation_sym; apply sort_perm | exact Hy].
     + rewrite <- (Permutation_length (sort_perm f (received s))). exact Hc.
     + eapply Permutation_in; [apply sort_perm | exact Hin].
   - rewrite firstn_all2; [exact Hin | lia].
@@ -670,12 +689,13 @@ Lemma reorg_repackable lim s txs ev t f st cap :
   In t txs -> N.of_nat (length (received s) + length txs) <= lim ->
   let s' := unmark lim s txs ev in
   exists t', In t' (received s') /\ thash t' = thash t /\ ~ In (thash t) (exec_keys s') /\
-    (N.of_nat (length (received s')) <= cap -> trid t' <> 0 \/ tnonce t' <= st (tsrc t') ->
+    ((forall x, In x (received s') -> tnonce x + 1 < two64) ->
+     N.of_nat (length (received s')) <= cap -> trid t' <> 0 \/ tnonce t' <= st (tsrc t') ->
      In t' (pack f st cap s')).
 Proof.
   intros Hin Hroom s'. destruct (unmark_pending lim s txs ev t Hin Hroom) as [Hp He]. fold s' in Hp, He.
   apply in_map_iff in Hp as [t' [E Ht']]. exists t'. repeat split; auto.
-  intros Hc Hok. apply pack_complete; auto.
+  intros Hw Hc Hok. apply pack_complete; auto.
 Qed.
 
 (* ---------- fine-grained semantics ---------- *)
